@@ -45,8 +45,8 @@ class World:
         A = self.alphabet
         for k in (0, 1):
             A.append(('values', k))
-        for v in (5, 8):
-            A.append(('n_lags', v))
+        for v in (5, 8, 'current'):
+            A.append(('n_lags', v))     # 'current': re-assign the number of classes in use right now
         for v in (None, 0.6, 'median'):
             A.append(('maxlag', v))
         for v in ('even', 'uniform', 'sturges', 'edges0'):
@@ -116,6 +116,9 @@ class World:
         if name in ('n_lags', 'maxlag') and custom:
             return False
         with quiet():
+            if name == 'n_lags' and v == 'current':
+                v = int(V.n_lags)
+                op = (name, v)
             if name == 'values':
                 V.values = self.vals[v].copy()
             elif name == 'bin_func':
